@@ -71,7 +71,17 @@ Definition on_ob8 (T : N) (imm : bool) (k : trk) (o : obs) (x : m8) : option m8 
   | Hang => None
   end.
 
-Definition ok (c : case) : bool :=
+(* part 1: the serial automaton (Case_Buffer.serial) on the flattened trace: no FnStart while a
+   call is open, no empty set, consecutive call numbers, FnEnd only for the open call.  Proved
+   complete (accepts every model trace) and sound (acceptance implies the readable statement) in
+   BufferInv.v / props/C08.v. *)
+Definition ok_serial (c : case) : bool :=
+  match c with
+  | Case T evs observed => match serial false 0 (concat observed) with Some _ => true | None => false end
+  end.
+
+(* part 2: the timed walk (not-early, exact clean burst) *)
+Definition ok_walk (c : case) : bool :=
   match c with
   | Case T evs observed =>
       match walk m8 (on_ev8 T) (on_ob8 T (imm_only evs)) evs observed trk0 m8_0 with
@@ -79,6 +89,8 @@ Definition ok (c : case) : bool :=
       | Some _ => true
       end
   end.
+
+Definition ok (c : case) : bool := ok_serial c && ok_walk c.
 
 Definition nontrivial (c : case) : bool :=
   match c with
